@@ -188,6 +188,37 @@ def h_router(ctx, ops):
     ctx.observe("log", log)
 
 
+def h_register_rtx(ctx):
+    """Two receivers that accept the same payload types (two bundled video sections), each announced
+    with its media SSRC and its RTX SSRC: after RTCDtlsTransport._register_rtp_receiver a packet on
+    either SSRC - the retransmission stream included - reaches the receiver it was announced for."""
+    import aiortc.rtcdtlstransport as dtlsmod
+    from aiortc.rtcrtpparameters import RTCRtpCodecParameters, RTCRtpDecodingParameters, RTCRtpReceiveParameters, RTCRtpRtxParameters
+
+    class Stand:
+        def __init__(self):
+            self._rtp_router = RtpRouter()
+            self._rtp_header_extensions_map = rtp.HeaderExtensionsMap()
+
+    d = Stand()
+    ssrcs = [ctx.int("ssrc%d" % i, 0, U32) for i in range(4)]
+    for i in range(4):
+        for j in range(i):
+            ctx.assume(ssrcs[i] != ssrcs[j], "announced SSRCs are distinct")
+    codecs = [RTCRtpCodecParameters(mimeType="video/VP8", clockRate=90000, payloadType=96), RTCRtpCodecParameters(mimeType="video/rtx", clockRate=90000, payloadType=97, parameters={"apt": 96})]
+    recvs = [Obj("R0"), Obj("R1")]
+    for k, r in enumerate(recvs):
+        enc = RTCRtpDecodingParameters(ssrc=ssrcs[2 * k], payloadType=96, rtx=RTCRtpRtxParameters(ssrc=ssrcs[2 * k + 1]))
+        dtlsmod.RTCDtlsTransport._register_rtp_receiver(d, r, RTCRtpReceiveParameters(codecs=codecs, encodings=[enc], muxId=str(k)))
+    ctx.reach("receivers-registered")
+    for k, r in enumerate(recvs):
+        got = d._rtp_router.route_rtp(RtpPacket(ssrc=ssrcs[2 * k], payload_type=96))
+        ctx.check(got is r, "media-ssrc-reaches-its-receiver")
+        got = d._rtp_router.route_rtp(RtpPacket(ssrc=ssrcs[2 * k + 1], payload_type=97))
+        ctx.check(got is r, "rtx-ssrc-reaches-the-receiver-it-was-announced-for", "receiver %d got %r" % (k, got))
+    ctx.observe("ok", True)
+
+
 def h_compound(ctx, first, second):
     """A compound RTCP datagram whose first packet makes its recipient unregister another endpoint
     (a stop() racing with the dispatch): the later packets of the same datagram are routed against
@@ -273,6 +304,7 @@ ENC = [
 ]
 
 HARNESSES = {
+    "register-rtx": Harness("register-rtx", h_register_rtx, lambda tier: [{}], style="STEP", bounds="two receivers sharing payload types 96/97, four symbolic distinct SSRCs (media + RTX each)", encoded=["aiortc.rtcdtlstransport:RTCDtlsTransport._register_rtp_receiver", "aiortc.rtcdtlstransport:RtpRouter.route_rtp"], twin="receivers-registered", opts={"samples": 1}),
     "compound": Harness("compound", h_compound, lambda tier: [{"first": a, "second": b} for a in ("nack", "rr") for b in ("pli", "rr", "nack")], style="STEP", bounds="compound datagram of two RTCP packets (NACK/RR then PLI/RR/NACK) for two senders with symbolic distinct SSRCs; the first recipient unregisters the second while it handles its packet", encoded=["aiortc.rtcdtlstransport:RTCDtlsTransport._handle_rtcp_data", "aiortc.rtcdtlstransport:RtpRouter.route_rtcp"], twin="compound-dispatched", opts={"samples": 1}),
     "router": Harness(
         "router",
